@@ -56,20 +56,23 @@ Definition k_one_n       : nat := Eval compute in N.to_nat c_dp_one_n.          
 Definition k_one_o       : nat := Eval compute in N.to_nat c_dp_one_o.          (* Swap(pivot, b-1) *)
 Definition k_one_p       : nat := Eval compute in N.to_nat c_dp_one_p.          (* return b-1 *)
 
-(* TODO-GEN: literals of insertionSort, siftDown and heapSort are not in Gen/GenConsts.v yet.
+(* literals of insertionSort, siftDown and heapSort (generated into Gen/GenConsts.v):
    (file internal/sort/sorter.go; functions insertionSort: "a + 1", "j-1", "j-1";
     siftDown: "2*root + 1" (2 and 1), "child+1 < hi", "first+child+1";
     heapSort: "lo := 0", "(hi - 1) / 2" (1 and 2), "i >= 0", "hi - 1", "i >= 0") *)
-Definition k_is_one   : nat := 1.   (* TODO-GEN insertionSort: i := a + 1 *)
-Definition k_is_prev  : nat := 1.   (* TODO-GEN insertionSort: j-1 (both occurrences) *)
-Definition k_sd_two   : nat := 2.   (* TODO-GEN siftDown: 2*root *)
-Definition k_sd_one_a : nat := 1.   (* TODO-GEN siftDown: 2*root + 1 *)
-Definition k_sd_one_b : nat := 1.   (* TODO-GEN siftDown: child+1 < hi *)
-Definition k_sd_one_c : nat := 1.   (* TODO-GEN siftDown: first+child+1 *)
-Definition k_hs_lo    : nat := 0.   (* TODO-GEN heapSort: lo := 0 *)
-Definition k_hs_one_a : nat := 1.   (* TODO-GEN heapSort: (hi - 1) / 2 *)
-Definition k_hs_two   : nat := 2.   (* TODO-GEN heapSort: (hi - 1) / 2 *)
-Definition k_hs_one_b : nat := 1.   (* TODO-GEN heapSort: i := hi - 1 *)
+Definition k_is_one   : nat := Eval compute in N.to_nat c_is_one.      (* insertionSort: i := a + 1 *)
+Definition k_is_prev  : nat := Eval compute in N.to_nat c_is_prev_a.   (* insertionSort: j-1 (both occurrences, see sort_literals_agree) *)
+Definition k_sd_two   : nat := Eval compute in N.to_nat c_sd_two.      (* siftDown: 2*root *)
+Definition k_sd_one_a : nat := Eval compute in N.to_nat c_sd_one_a.    (* siftDown: 2*root + 1 *)
+Definition k_sd_one_b : nat := Eval compute in N.to_nat c_sd_one_b.    (* siftDown: child+1 < hi *)
+Definition k_sd_one_c : nat := Eval compute in N.to_nat c_sd_one_c.    (* siftDown: first+child+1 *)
+Definition k_hs_lo    : nat := Eval compute in N.to_nat c_hs_lo.       (* heapSort: lo := 0 *)
+Definition k_hs_one_a : nat := Eval compute in N.to_nat c_hs_one_a.    (* heapSort: (hi - 1) / 2 *)
+Definition k_hs_two   : nat := Eval compute in N.to_nat c_hs_two.      (* heapSort: (hi - 1) / 2 *)
+Definition k_hs_one_b : nat := Eval compute in N.to_nat c_hs_one_b.    (* heapSort: i := hi - 1 *)
+(* the literals the model merges or treats as loop bounds must have the values the transcription assumes *)
+Definition sort_literals_agree : bool :=
+  (c_is_prev_a =? c_is_prev_b)%N && (c_hs_zero_a =? 0)%N && (c_hs_zero_b =? 0)%N.
 
 (* ------------------------------------------------------------------ Comparable *)
 Inductive cmpres := LessThan | GreaterThan | Equal | NotEqual.
